@@ -1427,7 +1427,9 @@ class HFIX(Command):
         HFIX mn U[#] d[#] atomnames
         """
         super(HFIX, self).__init__(shx, spline)
-        self.params, self.atoms = self._parse_line(spline, intnums=True)
+        self.params, self.atoms = self._parse_line(spline)
+        if self.params:
+            self.params[0] = int(self.params[0])  # mn is an integer, U and d are not
 
     def __repr__(self):
         return f"HFIX {' '.join([str(x) for x in self.params]) if self.params else ''} " \
